@@ -763,6 +763,48 @@ func vhHasUnion(t vhreflect.Type, seen map[vhreflect.Type]bool) bool {
 	return false
 }
 
+// vhHasNilUnion reports whether v holds a nil union value (a union field skipped for data generation):
+// such values are outside the JSON round trip's domain.
+func vhHasNilUnion(v vhreflect.Value, depth int) bool {
+	if depth > 12 {
+		return false
+	}
+	switch v.Kind() {
+	case vhreflect.Interface:
+		if v.IsNil() {
+			return len(vhUnions[v.Type()]) > 0
+		}
+		return vhHasNilUnion(v.Elem(), depth+1)
+	case vhreflect.Struct:
+		if v.Type() == vhTimeType || vhUserJSON[v.Type()] {
+			return false
+		}
+		for i := 0; i < v.NumField(); i++ {
+			if vhHasNilUnion(v.Field(i), depth+1) {
+				return true
+			}
+		}
+	case vhreflect.Slice, vhreflect.Array:
+		for i := 0; i < v.Len(); i++ {
+			if vhHasNilUnion(v.Index(i), depth+1) {
+				return true
+			}
+		}
+	case vhreflect.Ptr:
+		if !v.IsNil() {
+			return vhHasNilUnion(v.Elem(), depth+1)
+		}
+	case vhreflect.Map:
+		it := v.MapRange()
+		for it.Next() {
+			if vhHasNilUnion(it.Value(), depth+1) {
+				return true
+			}
+		}
+	}
+	return false
+}
+
 // ---------------------------------------------------------------------------
 
 func TestVerifHarness(t *vhtesting.T) {
@@ -905,7 +947,7 @@ func TestVerifHarness(t *vhtesting.T) {
 					docs = append(docs, vhfmt.Sprintf("%#v", v))
 					// every value survives the JSON round trip (anonymous containers of unions have no
 					// generated wrapper: encoding/json cannot read them back, which is not randdata's business)
-					if i < 5 && !(rv.Type().Name() == "" && vhHasUnion(rv.Type(), map[vhreflect.Type]bool{})) {
+					if i < 5 && !(rv.Type().Name() == "" && vhHasUnion(rv.Type(), map[vhreflect.Type]bool{})) && !vhHasNilUnion(rv, 0) {
 						b, err := vhjson.Marshal(v)
 						if err != nil {
 							vhEmit(map[string]any{"rand": rf.Name, "bad": "marshal error: " + err.Error()})
